@@ -559,6 +559,13 @@ func (e *Engine) load(s *State, p *Pointer) Value {
 		if !ok {
 			e.errf("load: BIdx on %T", v)
 		}
+		if p.ALen > 0 {
+			cells := make([]*Term, p.ALen)
+			for i := range cells {
+				cells[i] = e.baRead(ba, e.c.Add(p.BIdx, e.c.BV(uint64(i), 64)))
+			}
+			return e.newCellsArr(cells)
+		}
 		return e.baRead(ba, p.BIdx)
 	}
 	return v
@@ -576,6 +583,13 @@ func (e *Engine) store(s *State, p *Pointer, val Value) {
 	o = s.wobj(p.Obj)
 	if p.BIdx != nil {
 		ba := getPath(o.Val, p.Path).(*ByteArr)
+		if src, isArr := val.(*ByteArr); isArr && p.ALen > 0 {
+			for i := 0; i < p.ALen; i++ {
+				ba = e.baStore(ba, e.c.Add(p.BIdx, e.c.BV(uint64(i), 64)), e.baRead(src, e.c.BV(uint64(i), 64)))
+			}
+			o.Val = setPath(o.Val, p.Path, ba)
+			return
+		}
 		t, ok := val.(*Term)
 		if !ok {
 			e.errf("store: non-scalar into byte array")
@@ -1184,10 +1198,13 @@ func (e *Engine) evalValue(s *State, f *Frame, in ssa.Value) Value {
 			at := x.X.Type().Underlying().(*types.Pointer).Elem().Underlying().(*types.Array)
 			e.check(s, c.Ult(idx, c.BV(uint64(at.Len()), 64)), "panic", "index out of range")
 			if isByteType(at.Elem()) {
+				if a.ALen > 0 {
+					idx = c.Add(a.BIdx, idx)
+				}
 				if !(e.symIdx || s.symMem) && !idx.IsConst() {
 					idx = c.BV(e.concretize(s, idx, "byte index"), 64)
 				}
-				return &Pointer{Obj: a.Obj, Path: a.Path, BIdx: idx}
+				return &Pointer{Obj: a.Obj, Path: a.Path, BIdx: idx, Gen: a.Gen}
 			}
 			i := e.concretize(s, idx, "array index")
 			return &Pointer{Obj: a.Obj, Path: append(append([]int(nil), a.Path...), int(i))}
@@ -1217,11 +1234,17 @@ func (e *Engine) evalValue(s *State, f *Frame, in ssa.Value) Value {
 		if sl.Base == nil {
 			return &Pointer{}
 		}
-		off := e.concretize(s, sl.Off, "slice-to-array offset")
-		if off != 0 {
-			e.errf("SliceToArrayPointer with non-zero offset")
+		if !isByteType(at.Elem()) {
+			off := e.concretize(s, sl.Off, "slice-to-array offset")
+			if off != 0 {
+				e.errf("SliceToArrayPointer with non-zero offset (non-byte)")
+			}
+			return sl.Base
 		}
-		return sl.Base
+		if sl.Off.IsConst() && sl.Off.Val == 0 && sl.Base.BIdx == nil {
+			return sl.Base
+		}
+		return &Pointer{Obj: sl.Base.Obj, Path: sl.Base.Path, BIdx: sl.Off, Gen: sl.Base.Gen, ALen: int(at.Len())}
 	case *ssa.MakeSlice:
 		n := e.toInt64(e.get(s, f, x.Len).(*Term), x.Len.Type())
 		cp := e.toInt64(e.get(s, f, x.Cap).(*Term), x.Cap.Type())
@@ -1348,6 +1371,10 @@ func (e *Engine) sliceOp(s *State, f *Frame, x *ssa.Slice) Value {
 		at := x.X.Type().Underlying().(*types.Pointer).Elem().Underlying().(*types.Array)
 		base = a
 		off = c.BV(0, 64)
+		if a.ALen > 0 {
+			base = &Pointer{Obj: a.Obj, Path: a.Path, Gen: a.Gen}
+			off = a.BIdx
+		}
 		ln = c.BV(uint64(at.Len()), 64)
 		cp = ln
 	case *SliceV:
